@@ -1016,6 +1016,7 @@ def run(ctx, res):
         ("ark_ff|BitIteratorLE", "ws", "ark_ff", "bits::BitIteratorLE", [SX_.Obj(adt="ark_ff::bits::BitIteratorLE", fields={0: arr(0b1011001101), 1: 0, 2: 10})], range(0, 13), (0, 3, 9, 10), 13),
         ("ark_ff|BitIteratorBE", "ws", "ark_ff", "bits::BitIteratorBE", [SX_.Obj(adt="ark_ff::bits::BitIteratorBE", fields={0: arr(0b1011001101), 1: 10})], range(0, 13), (0, 3, 9, 10), 13),
     ], "ark-ff bit iterators (BitIteratorLE / BitIteratorBE)")
+    IO.check_width(res, facts)
     check_shifts(res, facts, ctx.tier)
     check_bitconv(res, facts, ctx.tier)
     return {
